@@ -246,6 +246,7 @@ ORDER_VARIANTS = {
     "two-phase": {"two_phase": True},          # declare a part, solve it, complete the model, NEW solver
     "interleaved": {"interleave": True},       # a (vacuous) resource constraint declared between two requirements
     "second-solver": {"resolve": True},        # the complete model was already solved once by another solver object
+    "later-problem": {"later_problem": True},  # another problem is created before this one gets its solver
 }
 
 
